@@ -5,4 +5,6 @@ cd "$(dirname "$0")"
 . ./env.sh
 mkdir -p bin evidence
 (cd tools/lndlint && go build -o ../../bin/lndlint .)
+# warm the build cache with the export data the loader needs (no-op when already warm)
+(cd "${REPO:-/repo}" && go list -export -deps ./... >/dev/null 2>&1 || true)
 echo "lndlint built with $(go version)"
